@@ -21,6 +21,7 @@ pub const OTH: u32 = 302;
 pub struct FaultyRead {
     q: VecDeque<u32>,
     n: Rc<Cell<usize>>,
+    salt: usize,
 }
 impl Read for FaultyRead {
     fn read(&mut self, buf: &mut [u8]) -> std::io::Result<usize> {
@@ -31,7 +32,18 @@ impl Read for FaultyRead {
             None => Ok(0),
             Some(WB) => Err(Error::new(ErrorKind::WouldBlock, "wb")),
             Some(INT) => Err(Error::new(ErrorKind::Interrupted, "int")),
-            Some(OTH) => Err(Error::new(ErrorKind::Other, "oth")),
+            Some(OTH) => {
+                // "any other read error": rotate through the error kinds a real source can report (everything except
+                // WouldBlock / Interrupted, which are modelled separately, and UnexpectedEof, which *is* end of input)
+                const KINDS: [ErrorKind; 16] = [
+                    ErrorKind::Other, ErrorKind::TimedOut, ErrorKind::BrokenPipe, ErrorKind::ConnectionReset, ErrorKind::ConnectionAborted,
+                    ErrorKind::NotConnected, ErrorKind::InvalidData, ErrorKind::InvalidInput, ErrorKind::PermissionDenied, ErrorKind::NotFound,
+                    ErrorKind::ConnectionRefused, ErrorKind::AddrInUse, ErrorKind::AlreadyExists, ErrorKind::WriteZero, ErrorKind::Unsupported,
+                    ErrorKind::OutOfMemory,
+                ];
+                let k = KINDS[(self.n.get() + self.q.len() + self.salt) % KINDS.len()];
+                Err(Error::new(k, "oth"))
+            }
             Some(b) => {
                 buf[0] = b as u8;
                 self.n.set(self.n.get() + 1);
@@ -52,7 +64,7 @@ fn ev_read<E: ByteSourceErr>(pos: i64, r: Result<&[u8], ReadDecodedError<E>>) ->
 pub fn run_faulty(items: &[u32], api: u8) -> Vec<Ev> {
     match catch_unwind(AssertUnwindSafe(|| {
         let n = Rc::new(Cell::new(0usize));
-        let mut r = SmlReader::with_vec_buffer().from_reader(FaultyRead { q: items.iter().cloned().collect(), n: n.clone() });
+        let mut r = SmlReader::with_vec_buffer().from_reader(FaultyRead { q: items.iter().cloned().collect(), n: n.clone(), salt: (api as usize) * 5 + crate::common::seed() as usize });
         let mut out: Vec<Ev> = vec![];
         let mut ends = 0;
         let mut calls = 0;
